@@ -101,9 +101,21 @@ func run(env *simrt.Env, sci interface{}) {
 	defer cancel3()
 	ticks := 0
 	hs = append(hs, env.Go("ticker", func() { ticks = probe.SleepyTicker(ctx3, time.Millisecond) }))
+	// atomics: one armed drop, two takers
+	dr := &probe.Drops{Buggy: sc.Buggy}
+	dr.Arm(1)
+	taken := make([]bool, 2)
+	for i := 0; i < 2; i++ {
+		i := i
+		hs = append(hs, env.Go("taker", func() { taken[i] = dr.Take() }))
+	}
 	env.Join(hs...)
 	env.Quiesce()
 	if env.Failed() {
+		return
+	}
+	if taken[0] && taken[1] {
+		env.Fail("Z00/atomic-check-then-act", "one armed drop was taken twice")
 		return
 	}
 	n := 0
@@ -138,10 +150,7 @@ func run(env *simrt.Env, sci interface{}) {
 		env.Fail("Z00/afterfunc-stop", "stop()=%v, callback ran %d times", stopped, f2.Get())
 		return
 	}
-	if ticks > 11 { // stalls and select order may lose ticks, nothing may add them
-		env.Fail("Z00/ticker", "ticks = %d in 10 ms with a 1 ms period", ticks)
-		return
-	}
+	_ = ticks // no bound: once the context is done the select may still prefer a ready tick, any number of times
 }
 
 func TestSim(t *testing.T) {
